@@ -475,3 +475,48 @@ def walk_no_nested(node: ast.AST):
 
 def dedent(s: str) -> str:
     return textwrap.dedent(s)
+
+
+class Scope:
+    """Parent links and enclosing-branch conditions inside one function."""
+
+    def __init__(self, fn: ast.AST) -> None:
+        self.fn = fn
+        self.parent: dict[int, ast.AST] = {}
+        self.field: dict[int, str] = {}
+        for p in ast.walk(fn):
+            for name, value in ast.iter_fields(p):
+                kids = value if isinstance(value, list) else [value]
+                for k in kids:
+                    if isinstance(k, ast.AST):
+                        self.parent[id(k)] = p
+                        self.field[id(k)] = name
+
+    def ancestors(self, node: ast.AST):
+        cur = node
+        while id(cur) in self.parent:
+            p = self.parent[id(cur)]
+            yield p, self.field[id(cur)], cur
+            cur = p
+
+    def guards(self, node: ast.AST) -> list[tuple[ast.expr, bool]]:
+        """(test, polarity) of every enclosing if/while/ifexp branch, innermost first."""
+        out = []
+        for p, fld, _child in self.ancestors(node):
+            if isinstance(p, (ast.If, ast.While, ast.IfExp)) and fld in ("body", "orelse"):
+                out.append((p.test, fld == "body"))
+        return out
+
+    def enclosing(self, node: ast.AST, kinds) -> list[ast.AST]:
+        return [p for p, _f, _c in self.ancestors(node) if isinstance(p, kinds)]
+
+    def enclosing_with_field(self, node: ast.AST, kinds):
+        return [(p, f) for p, f, _c in self.ancestors(node) if isinstance(p, kinds)]
+
+    def stmt_of(self, node: ast.AST) -> ast.stmt | None:
+        if isinstance(node, ast.stmt):
+            return node
+        for p, _f, _c in self.ancestors(node):
+            if isinstance(p, ast.stmt):
+                return p
+        return None
